@@ -382,10 +382,30 @@ fn gen_case(tape: Vec<u8>) -> Case {
         }
         6 => {
             let J::Obj(kv) = slot else { unreachable!("struct renders as object") };
-            let name = ["undeclared", "extra", "Name", "value2", "", " "][u.below(6)];
-            let name = if kv.iter().any(|(k, _)| k == name) { "zz_undeclared" } else { name };
+            // half of the time the undeclared member is one that exists elsewhere: a standard domain field (with a
+            // value of its standard type) or a member declared by another struct of the document
+            let mut known: Vec<(String, J)> = vec![
+                ("name".into(), J::Str("Ether Mail".into())),
+                ("version".into(), J::Str("1".into())),
+                ("chainId".into(), J::Num("1".into())),
+                ("verifyingContract".into(), J::Str("0xCcCCccccCCCCcCCCCCCcCcCccCcCCCcCcccccccC".into())),
+                ("salt".into(), J::Str(format!("0x{}", "ab".repeat(32)))),
+            ];
+            for def in &model.graph.structs {
+                for (m, _) in &def.members {
+                    known.push((m.clone(), J::Num("1".into())));
+                }
+            }
+            known.retain(|(n, _)| !kv.iter().any(|(k, _)| k == n));
+            let (name, value): (String, J) = if u.bool() && !known.is_empty() {
+                known[u.below(known.len())].clone()
+            } else {
+                let name = ["undeclared", "extra", "Name", "value2", "", " "][u.below(6)];
+                let name = if kv.iter().any(|(k, _)| k == name) { "zz_undeclared" } else { name };
+                (name.to_string(), [J::Num("1".into()), J::Null, J::Str("x".into()), J::Obj(vec![])][u.below(4)].clone())
+            };
             let i = u.below(kv.len() + 1);
-            kv.insert(i, (name.to_string(), [J::Num("1".into()), J::Null, J::Str("x".into()), J::Obj(vec![])][u.below(4)].clone()));
+            kv.insert(i, (name.clone(), value));
             ("undeclared-member", format!("{name:?}"), None)
         }
         8 => {
